@@ -287,7 +287,7 @@ CHECKS["C16"] = {
           "table of main.rs stays within {0,1,2,3,130}. The shapes before the nine fix commits are kept as `...Old` with "
           "kernel-evaluated before-fix witnesses. Every potentially panicking site of the non-test code (clippy inventory, "
           "regenerated each run) must be classified; panic/no-panic of the real functions is compared with the model in-process; "
-          "the recorded inputs of the nine repaired defects run first as regression cases; a CLI stream of hostile trees, names, "
+          "the recorded inputs of the repaired defects and a fixed set of hand-edited plans with overlapping-but-different hunks (nested, straddling, same start/end, enclosing, adjacent, reversed, same range with another replacement) run first as regression cases; an in-process disagreement is replayed through the CLI at once (tree + plan.json / arguments) so that a concrete failing command line is reported; a CLI stream of hostile trees, names, "
           "terms, option sets, stale plans and workspace state checks status, stderr and termination - any panic, signal, "
           "undocumented status or non-termination is a violation with the case as replay.",
   "design_ref": "DESIGN.md section 4, C16",
@@ -361,14 +361,19 @@ CHECKS["C14"] = {
           "tree identical (readonly_full, C14_full_holds). On the real binary every run is traced by the shim: written paths are "
           "checked against the permitted set, the whole tree is snapshotted before/after, and plan JSON and the "
           "table/diff/matches/summary previews are compared across RAYON_NUM_THREADS 1..16 and repeats on generated trees of 1..40 "
-          "entries. The lock / .renamify write of rename --dry-run repaired by 055e350 is a violation if it returns.",
+          "entries, and on a family of confusable files (groups of 2..6 files >= 4 KiB with equal length, equal first/last 2 KiB, "
+          "equal mtime, same names in different directories, identical copies and one-byte variants, whose dominant identifier "
+          "styles differ) where every multi-thread plan is compared with the 1-thread plan and, per file, with the plan of that "
+          "file alone. The lock / .renamify write of rename --dry-run repaired by 055e350 is a violation if it returns.",
   "design_ref": "DESIGN.md section 4, C14",
   "technique": "Lean 4 proof (permutation invariance of sorting; frame reasoning over effect lists) + generated gate/shape tables + "
                "written-path log and snapshots under the shim + cross-thread-count differential",
   "note": TB + "rayon's order-preserving collect and the stability of readdir order are library/OS contracts (the sort key and the "
           "ordered collect are pinned syntactically by Gen/ScanShape); PathBuf ordering being a total order and the key being "
           "unique per hunk are hypotheses of order_independent (the latter is C03's sort_key_unique); git subprocesses of auto-init "
-          "are not traced; only the cwd-rooted invocation is explored (no multiple roots).",
+          "are not traced; only the cwd-rooted invocation is explored (no multiple roots); the per-file-in-isolation oracle is applied "
+          "only to the confusable family, whose ambiguous hits stand at line starts so that ambiguity/cross_file_context.rs (which "
+          "legitimately depends on the other files) cannot contribute.",
 }
 
 CHECKS["C03"] = {
@@ -425,4 +430,4 @@ CHECKS["C15"] = {
 }
 
 _W = "check built and passing before the latest repo fix commits; temporarily withdrawn while its Lean model is updated to the repaired code"
-PENDING.update({"C04": _W, "C11": _W, "C16": _W})
+PENDING.update({"C04": _W, "C11": _W})
